@@ -12,8 +12,8 @@ func ruleF4(c *Ctx, id string) {
 	R.Rule(id, "half-freed objects are finished before reuse or resize: every Inode.Resize acts on an inode known not to be shrinking (obtained through getShrink / getAlloc, or under an explicit !IsShrinking test) or Resize only ever raises ShrinkSize; AllocInode initialises only a non-shrinking inode; getShrink/getAlloc leave their loop with success only on the !IsShrinking edge", 5)
 	getShrink := c.fn(id, "nfs.(*Nfs).getShrink")
 	getAlloc := c.fn(id, "nfs.(*Nfs).getAlloc")
-	doDec := c.fn(id, "nfs.(*Nfs).doDecLink")
-	if getShrink == nil || getAlloc == nil || doDec == nil || V.Resize == nil || V.IsShrinking == nil {
+	doDec := P.Func("nfs.(*Nfs).doDecLink") // (may be written out in its callers)
+	if getShrink == nil || getAlloc == nil || V.Resize == nil || V.IsShrinking == nil {
 		return
 	}
 	notShrinking := func(fn *ssa.Function, at *ssa.BasicBlock, ip ssa.Value) bool {
@@ -113,13 +113,13 @@ func ruleF4(c *Ctx, id string) {
 		for _, call := range P.CallsIn(fn, funcIs(V.Resize)) {
 			ip := recvOf(call)
 			R.Analysed[FuncName(fn)] = true
-			if fn == doDec {
+			if doDec != nil && fn == doDec {
 				// obligation moves to doDecLink's callers
 				for _, cs := range P.CallersOf(doDec) {
 					if !IsRepoFunc(cs.Caller) {
 						continue
 					}
-					arg := callCommon(cs.Instr).Args[2]
+					arg := inodeArg(cs.Instr)
 					ok := keepsPending || fromHelper(arg, getAlloc) || notShrinking(cs.Caller, cs.Instr.Block(), arg)
 					key := FuncName(cs.Caller) + "|doDecLink -> Resize(0) on a possibly shrinking inode"
 					R.Check(ok, id, key, P.Pos(cs.Instr.Pos()), "the inode unlinked (and truncated to 0) is known not to be in the middle of a background shrink, or Resize never lowers a pending ShrinkSize", "Resize only raises ShrinkSize / inode from getAlloc / under !IsShrinking", "the object was merely looked up: if a background shrink of it is in progress, Resize(0) overwrites ShrinkSize with the small current size and the blocks in between are never freed")
